@@ -554,7 +554,7 @@ def gen_cases(chk):
         add(b.ops, "deep-wide")
     # --- 3. sizes steered around the first buffer (1024) and far above it
     targets = list(range(1000, 1101)) if thorough else list(range(1015, 1035)) + [1000, 1100, 1050]
-    targets += [2047, 2048, 2049, 4095, 4096, 4097, 5000, 8191, 8192, 8193, 12000, 20000] if thorough else [2048, 4097, 9000]
+    targets += [2047, 2048, 2049, 4095, 4096, 4097, 5000, 8191, 8192, 8193, 12000, 20000] if thorough else [2048, 4097, 4500, 9000, 15000]
     reps = 12 if thorough else 2
     for target in targets:
         for rep in range(reps):
@@ -954,7 +954,7 @@ def shrink_case(case, exe, mexe, want_fail):
 def run(chk):
     chk.rule = ("programs of stanza API calls: random trees (depth<=8, fan-out<=6) rendered / copied / mutated / re-rendered; "
                 "render sizes steered to every length around the 1024-byte first buffer and far above it; many attributes with "
-                "bucket collisions, overwrites and deletions; nested namespace changes and repeats (exhaustive 4^3 chain); "
+                "bucket collisions, overwrites and deletions; nested namespace changes and repeats (exhaustive 4^3 chain); rendering of stanzas that are children of other stanzas (exhaustive 4^2 + random); "
                 "reply / reply_error (error types x RFC 6120 conditions, with/without text, with/without from/to) / "
                 "xmpp_error_new for every enumerator; exhaustive strings over {< > & \" ' a} as text and attribute; every byte "
                 "1..255; adjacent / empty / white-space text; API misuse. non-trivial = distinct program with at least one "
